@@ -13,11 +13,21 @@ from standins.matching_oracle import (bottleneck_oracle, check_certificate, smal
 ROOT = os.path.dirname(os.path.dirname(os.path.abspath(__file__)))
 
 
+_EMPTY_FORMS = (lambda: np.zeros((0, 2)), lambda: [], lambda: np.array([]), lambda: np.empty((0, 2), dtype=int), lambda: ())
+_EMPTY_TURN = [0]
+
+
+def _empty_form():
+    """an empty diagram arrives as a (0,2) array, an empty list / tuple or np.array([]) (shape (0,)): taken in turn"""
+    _EMPTY_TURN[0] += 1
+    return _EMPTY_FORMS[_EMPTY_TURN[0] % len(_EMPTY_FORMS)]()
+
+
 def call(kind, d1, d2, matching=False):
     from persim import bottleneck, wasserstein
     f = bottleneck if kind == "inf" else wasserstein
-    a = np.array(d1, dtype=float).reshape(-1, 2) if len(d1) else np.zeros((0, 2))
-    b = np.array(d2, dtype=float).reshape(-1, 2) if len(d2) else np.zeros((0, 2))
+    a = np.array(d1, dtype=float).reshape(-1, 2) if len(d1) else _empty_form()
+    b = np.array(d2, dtype=float).reshape(-1, 2) if len(d2) else _empty_form()
     with warnings.catch_warnings(record=True) as w:
         warnings.simplefilter("always")
         r = f(a, b, matching=matching)
